@@ -41,7 +41,7 @@ def split_cases(path):
 
 def case_input_lines(lines):
     """the lines that define a case (setup + ops), without observations"""
-    return [l for l in lines if l.split(" ", 1)[0] in ("CASE", "SYS", "USR", "ABBR", "SYMSEL", "INIT", "OP")]
+    return [l for l in lines if l.split(" ", 1)[0] in ("CASE", "SYS", "USR", "ABBR", "SYMSEL", "MODE", "INIT", "OP")]
 
 
 def run_case_lines(lines, work, tag="one"):
@@ -198,7 +198,7 @@ def correspondence(res, st, tier, work, extra_gen=()):
 # ------------------------------------------------------------------ trace parsing for the oracles
 
 class Step:
-    __slots__ = ("op", "res", "snap", "obs", "convs", "dconv", "raw_s", "raw_o")
+    __slots__ = ("op", "res", "snap", "obs", "convs", "dconv", "raw_s", "raw_o", "gets", "all_o", "twin")
 
     def __init__(self, op):
         self.op = op.split()
@@ -209,6 +209,9 @@ class Step:
         self.dconv = None
         self.raw_s = ""
         self.raw_o = ""
+        self.gets = []      # G lines (all query functions, one line per repetition)
+        self.all_o = []     # every O line of the step
+        self.twin = None    # T line: reset context vs fresh twin
 
 
 def kv(line):
@@ -249,7 +252,7 @@ def parse_cases(path):
                 step = None
             elif cur is None:
                 continue
-            elif tag in ("SYS", "USR", "ABBR", "SYMSEL", "INIT"):
+            elif tag in ("SYS", "USR", "ABBR", "SYMSEL", "MODE", "INIT"):
                 cur["setup"].append(line)
             elif tag == "OP":
                 step = Step(rest)
@@ -268,6 +271,11 @@ def parse_cases(path):
             elif tag == "O":
                 step.raw_o = rest
                 step.obs = kv(rest)
+                step.all_o.append(rest)
+            elif tag == "G":
+                step.gets.append(rest)
+            elif tag == "T":
+                step.twin = rest
     return cases
 
 
